@@ -278,7 +278,10 @@ theorem lex_reconstructs (src : Martian.Lexer.Bytes) :
   lexAllRaw_reconstructs src
 
 /-- What the reported line of a token is: 1 + the newlines in the white-space
-tokens before it + the number of comment tokens before it. -/
+tokens AND in the other non-comment tokens (string literals) before it + the
+number of comment tokens before it.  (Before the repair `da46d3b` of the line
+bookkeeping the newlines inside string literals were not counted: every error
+after a multi-line string literal pointed at too low a line.) -/
 theorem lex_line (src : Martian.Lexer.Bytes) (pre : List Tok) (t : Tok) (post : List Tok)
     (h : (lexAllRaw src).1 = pre ++ t :: post) : t.line = 1 + (pre.map (lineAdvance genTables)).sum :=
   lexAllRaw_line src pre t post h
@@ -287,13 +290,13 @@ theorem lex_line (src : Martian.Lexer.Bytes) (pre : List Tok) (t : Tok) (post : 
 example : (lexAll [0x69, 0x6E, 0x20, 0x78, 0x0A, 0x23, 0x0A, 0x24]).map (fun t => (t.id, t.line)) =
     [(57354, 1), (57378, 1), (57348, 3)] := by decide
 
-/-- Negative witness (recorded, not a totality defect): newlines inside a
-string literal are not counted, so `"a⏎b" x` reports `x` on line 1 although it
-is on line 2 of the file; and a comment cut short by an invalid byte still
-advances the line, so in `#\xff` the INVALID token is reported on line 2 of a
-one-line file. -/
+/-- Witnesses of the line bookkeeping, replayed on the real scanner: after the
+repair, in `"a⏎b" x` the identifier is reported on line 2, column 4 (where it
+is); still recorded, not a totality defect: a comment cut short by an invalid
+byte advances the line although no newline was consumed, so in `#\xff` the
+INVALID token is reported on line 2 of a one-line file. -/
 theorem line_count_quirks :
-    (lexAll [0x22, 0x61, 0x0A, 0x62, 0x22, 0x20, 0x78]).map (fun t => t.line) = [1, 1] ∧
+    (lexAll [0x22, 0x61, 0x0A, 0x62, 0x22, 0x20, 0x78]).map (fun t => (t.line, t.col)) = [(1, 1), (2, 4)] ∧
     (lexAll [0x23, 0xFF]).map (fun t => (t.id, t.line)) = [(57348, 2)] := by decide
 
 end tokenizer
